@@ -364,7 +364,12 @@ def run(ctx):
         strb = "strb" in norm(sl)
         i_ = a.loops[-1][0]
         bad = None
-        if not (isinstance(sl, ast.Subscript) and isinstance(sl.slice, ast.Slice) and sl.slice.lower is not None and sl.slice.upper is not None):
+        lo_n = hi_n = None
+        if isinstance(sl, ast.Subscript) and isinstance(sl.slice, ast.Slice):
+            lo_n, hi_n = sl.slice.lower, sl.slice.upper
+        elif isinstance(sl, ast.Subscript) and isinstance(sl.slice, ast.Call) and norm(sl.slice.func) == "slice" and len(sl.slice.args) == 2:
+            lo_n, hi_n = sl.slice.args          # x[slice(lo, hi)]
+        if lo_n is None or hi_n is None:
             bad = f"{norm(sl)} is not a [lo:hi] slice"
         else:
             import copy as _copy
@@ -376,7 +381,7 @@ def run(ctx):
                     if d is not None and x.id not in ("dw_from", "dw_to", "ratio", i_):
                         return self.visit(_copy.deepcopy(d))
                     return x
-            lo_e, hi_e = _R().visit(_copy.deepcopy(sl.slice.lower)), _R().visit(_copy.deepcopy(sl.slice.upper))
+            lo_e, hi_e = _R().visit(_copy.deepcopy(lo_n)), _R().visit(_copy.deepcopy(hi_n))
             for dwf in (8, 16, 32):
                 for k in (0, 1, 3):
                     unit = dwf // 8 if strb else dwf
